@@ -5,7 +5,7 @@ Line protocol for the rendezvous interpreter.
   rv.parse dev|own <n> <var> <hexvalue> …   model of parseDirective  → `ok <fields>` | `dropped` | `panic:<site>`
   rv.spec  dev|own <n> <var> <hexvalue> …   reference interpreter    → same reply form
   rv.urls  dev|own <n> <var> <hexvalue> …   model of parseURLs       → `urls=[…]`
-  rv.shift <hex>                            model of cbor.ArrayShift → `ok <first> <rest>` | `fail` | `panic`
+  rv.shift <hex>                            model of cbor.ArrayShift → `ok <first> <rest>` | `fail`
   rv.dec u8|u16|u32|i64|str|bytes|hash <hex> typed cbor.Unmarshal     → `<stored> ok|err`
 -/
 namespace Fdo.Drv.Rv
@@ -67,7 +67,6 @@ def handle (cmd : String) (args : List String) : Option String :=
   | "rv.shift", [h] => do
     let b ← ofHex h
     match arrayShift b with
-    | .panic => some "panic"
     | .fail => some "fail"
     | .ok f r => some s!"ok {hexOrDash f} {hexOrDash r}"
   | "rv.dec", [ty, h] => do
@@ -79,7 +78,10 @@ def handle (cmd : String) (args : List String) : Option String :=
     | "i64" => some (decText toString (unmarshalInt64 b))
     | "str" => some (decText hexOrDash (unmarshalStr b))
     | "bytes" => some (decText hexOrDash (unmarshalBytes b))
-    | "hash" => some (decText (fun h => hashText (some h)) (unmarshalHash b))
+    | "hash" =>
+      -- a struct target may be left partially filled on error; rv.go never looks at it then
+      let d := unmarshalHash b
+      some (decText (fun h => hashText (some h)) ⟨d.val, d.ok⟩)
     | _ => none
   | _, _ => none
 
